@@ -180,10 +180,15 @@ def check_C04(A: Analysis, tier):
             if i != 0:
                 continue
             sf = site_func(ev)
+            # the deleter is identified by the call string (its work may live in a private helper)
+            for q in (Q("_delete_object_only"), Q("_move_and_get_checksums"), Q("delete_object")):
+                if q in ev.ctx:
+                    sf = q
+                    break
             ra.ob()
             ra.inst(f"{sf}: `{site_text(ev)[:60]}`")
             if sf not in OBJ_DELETERS:
-                ra.fail(sf, site_text(ev), "an object file is removed by a function that is not one of the three "
+                ra.fail(site_func(ev), site_text(ev), "an object file is removed by a function that is not one of the three "
                         "reference-guarded deleters", site_loc(A, ev))
                 continue
             if sf == Q("_move_and_get_checksums"):
@@ -267,7 +272,7 @@ def check_C04(A: Analysis, tier):
         it = A.api("delete_object", m)
         got = {"OBJ": False, "CIDREFS": False}
         for ev in it.events:
-            if ev.kind == "RENAME" and not ev.handling and site_func(ev) == Q("delete_object"):
+            if ev.kind == "RENAME" and not ev.handling and Q("delete_object") in ev.ctx and Q("delete_metadata") not in ev.ctx:
                 for i, c in resource_hits(ev, {"OBJ", "CIDREFS"}):
                     if i == 0 and emptiness_guard(ev, c.key)[0]:
                         got[c.cls] = True
@@ -504,7 +509,7 @@ def check_C10(A: Analysis, tier):
                 continue
             if ev.kind == "WRITE" and ev.prim == "file.truncate" and resource_hits(ev, {"CIDREFS"}):
                 need(ev, ("prim", "RENAME", 0, "PIDREFS"), "the cid list is updated before the pid reference is renamed away")
-            if ev.kind == "RENAME" and site_func(ev) == Q("delete_object"):
+            if ev.kind == "RENAME" and Q("delete_object") in ev.ctx and Q("delete_metadata") not in ev.ctx:
                 for i, c in resource_hits(ev, {"CIDREFS", "OBJ"}):
                     if i == 0 and c.cls == "CIDREFS":
                         need(ev, ("prim", "WRITE", 0, "CIDREFS"), "the cid list is renamed away before this pid was removed from it")
